@@ -87,6 +87,19 @@ CHECKS = {
   note="Trusted: TLC, helper vpa; variables are exported through the process environment; unquoted values with blanks may arrive "
        "split or unsplit.",
   technique="TLA+ reference expansion + model of the expansion loop checked by TLC (safety + liveness); TLC-enumerated words replayed on the binary"),
+ "C11": dict(
+  category="model_checking",
+  text="The reference value of a word with command substitutions (spec/MCSubst.tla: each substitution replaced by its output "
+       "with trailing newlines removed, everything else literal, each inner command run once) is enumerated by TLC over spelling "
+       "{$(), ``} x position {whole, start, mid, end} x context {unquoted, double-quoted, assignment, here-string} x inner kind "
+       "{simple, pipeline, failing, not found, syntactically invalid, builtin} x output text (incl. $1, ${x}, $name, a\\b, *, {a,b}, "
+       "blanks, newlines; thorough: more) and two substitutions per word; TLC checks the trimming theorems; each case runs on the "
+       "real binary with a helper that prints the programmed bytes and logs each run, under a watchdog (hangs re-run with a 10x "
+       "budget); oracle: argv / stdin received by the outer command, run counters, diagnostic for inner commands that cannot "
+       "run, and that the following command still runs.",
+  design_ref="DESIGN.md 3.2, 6 (C11)",
+  note="Trusted: TLC, helpers vout / vpa / vio; unquoted results with blanks may arrive split or unsplit.",
+  technique="TLA+ reference of substitution values enumerated by TLC; every case replayed on the binary with run counters"),
  "C06": dict(
   category="model_checking",
   text="TLC explores every interleaving of child status changes (with Linux's report coalescing), foreground-wait iterations, "
